@@ -69,6 +69,7 @@ class Ctx:
         self.barriers = []        # frame conditions of the proof rules in force (rules R1 / R6), innermost last
         self.t_setup = None       # allocation clock when the contract's setup finished
         self.field_writes = []    # attribute assignments on objects older than that: (class, attribute, old type, new type)
+        self.static_writes = []   # mutations of module-level / class-level containers by the function under contract
         self.decisions = 0
         self.concrete_only = False
 
@@ -237,6 +238,7 @@ class Interp:
         finally:
             self.ctx = saved
         m.loaded = True
+        _mark_static(m.env)
         return m
 
     def import_from(self, modname, name):
@@ -827,6 +829,13 @@ class Interp:
                 if c.born < b.t0 and id(c) not in b.allow:
                     raise Unsupported(f'frame condition of {b.what}: {what} on a {type(c).__name__[1:].lower()} that exists before the '
                                       f'cut and is not re-created by the invariant (loop-carried state outside the contract)')
+
+    def static_write(self, c, what):
+        """a list / dict / set created while a module was loaded (module-level or class-level state: a registry, a cache)
+        is mutated by the function under contract: state that survives the call and that no contract describes"""
+        ctx = self.ctx
+        if ctx is not None and ctx.t_setup is not None:
+            ctx.static_writes.append(f'{what} on a module-level {type(c).__name__[1:].lower()}')
 
     def barrier_field(self, o, name):
         for b in self.barriers:
@@ -1542,6 +1551,8 @@ class Interp:
                     v = self.call(c.default_factory, [], {})
                     if self.barriers:
                         self.barrier_obj(c, 'defaultdict insertion')
+                    if c.born == 0:
+                        self.static_write(c, 'defaultdict insertion')
                     c.d[k] = v
                     return v
                 self.raise_('KeyError', repr(k))
@@ -1601,6 +1612,8 @@ class Interp:
     def setitem(self, c, k, v):
         if self.barriers:
             self.barrier_obj(c, 'item assignment')
+        if getattr(c, 'born', 1) == 0:
+            self.static_write(c, 'item assignment')
         if isinstance(c, VDict):
             if not _concrete_key(k):
                 # symbolic key: overwrite if equal to an existing key on this path, else unsupported insert
@@ -1645,6 +1658,8 @@ class Interp:
     def delitem(self, c, k):
         if self.barriers:
             self.barrier_obj(c, 'item deletion')
+        if getattr(c, 'born', 1) == 0:
+            self.static_write(c, 'item deletion')
         if isinstance(c, VDict):
             if _concrete_key(k):
                 if k not in c.d:
@@ -1832,6 +1847,24 @@ def _load(t):
 
 def _is_name(d, names):
     return isinstance(d, ast.Name) and d.id in names
+
+
+def _mark_static(env, depth=0, seen=None):
+    """containers reachable from a freshly loaded module's namespace (incl. class attributes) get allocation stamp 0"""
+    seen = seen if seen is not None else set()
+    vals = list(env.values()) if isinstance(env, dict) else list(env)
+    for v in vals:
+        if id(v) in seen or depth > 3:
+            continue
+        seen.add(id(v))
+        if isinstance(v, (VList, VSet)):
+            v.born = 0
+            _mark_static(v.items, depth + 1, seen)
+        elif isinstance(v, VDict):
+            v.born = 0
+            _mark_static(list(v.d.values()), depth + 1, seen)
+        elif isinstance(v, ClassV) and depth == 0:
+            _mark_static(v.attrs, depth + 1, seen)
 
 
 class Barrier:
